@@ -25,7 +25,7 @@ RULE = (
 )
 BOUNDS = {"rows": "20-300", "levels": "2-3", "leaves": "3-14"}
 ASSUMPTIONS = ["frequencies compared exactly (count/n vs the decimal min_freq), consistent with float comparison for n <= 400"]
-BUDGET = {"quick": 2000, "thorough": 150000}
+BUDGET = {"quick": 6000, "thorough": 150000}
 DEADLINE_S = {"quick": 200, "thorough": 3300}
 STR_NAN = "__NAN__"
 MIN_FREQS = [0.05, 0.1, 0.15, 0.2, 0.25]
